@@ -619,9 +619,22 @@ pub fn run(tier: Tier, seed: u64) -> i32 {
                 deep.push(p);
             }
         }
+        // fixed members every run looks at: the cage with one pair of tempo pawns in which the
+        // defender's best reply puts the ATTACKER in zugzwang (no forced mate in six moves; a search
+        // that lets the attacker pass sees "mate 3"), with its colour-flipped and mirrored twins
+        if j == 0 {
+            for fen in ["8/4p3/8/8/4P3/p2K4/8/k1N5 w - -", "8/3p4/8/8/3P4/4K2p/8/5N1k w - -"] {
+                if let Ok(p) = Pos::parse_fen(fen) {
+                    if is_legal_position(&p) {
+                        deep.push(mirror(&p));
+                        deep.push(p);
+                    }
+                }
+            }
+        }
         // the enumerated family: a slice of it per job (thorough: all of it, quick: every 48th member)
         {
-            let step = if tier == Tier::Quick { 48 } else { 1 };
+            let step: usize = std::env::var("VERIF_C11_STAMMA_STEP").ok().and_then(|v| v.parse().ok()).unwrap_or(if tier == Tier::Quick { 48 } else { 1 });
             let per_job = STAMMA_FAMILY_SIZE / n_jobs + 1;
             let from = j * per_job;
             let mut k = from + (seed as usize % step);
